@@ -398,3 +398,124 @@ End PacingProofs.
 Lemma tooEarly_spec availMS atoMS nowMS : 0 < atoMS ->
   (tooEarly availMS atoMS nowMS = true <-> nowMS < availMS - atoMS).
 Proof. unfold tooEarly. intros H. destruct (atoMS >? 0) eqn:E; lia. Qed.
+
+(** *** Same media: the body as a client parses it, against whole-segment mode *)
+Lemma stamped_app t a b : stamped t (a ++ b) = stamped t a ++ stamped (t + sum_durs a) b.
+Proof.
+  revert t; induction a as [|x a IH]; intros t.
+  - cbn. now rewrite Z.add_0_r.
+  - cbn [app stamped]. rewrite IH, sum_durs_cons, Z.add_assoc. reflexivity.
+Qed.
+
+Lemma parse_chunk_id c t : c_samples c = stamped t (c_samples c) -> c_samples c <> [] -> parse_chunk c = c_samples c.
+Proof.
+  intros E Hne. unfold parse_chunk, chunk_tfdt. destruct (c_samples c) as [|s l] eqn:Es; [congruence|].
+  cbn [stamped] in E. injection E as E1 E2.
+  assert (s_dt s = t) by (rewrite E1; reflexivity).
+  subst t. cbn [stamped]. rewrite <- E1, <- E2. reflexivity.
+Qed.
+
+Lemma parse_body_samples cs : forall t, contiguous t cs -> Forall (fun c => c_samples c <> []) cs ->
+  parse_body cs = samples_of cs.
+Proof.
+  induction cs as [|c r IH]; intros t Hc Hne; [reflexivity|].
+  cbn [contiguous] in Hc. destruct Hc as [Hc1 Hc2]. inversion Hne; subst.
+  unfold parse_body, samples_of. cbn [flat_map].
+  rewrite (parse_chunk_id c t Hc1) by assumption. f_equal. eapply IH; eassumption.
+Qed.
+
+Lemma u64_shift a b c : 0 <= a + (b - c) < two64 -> u64 (a + u64 (b - c)) = a + (b - c).
+Proof.
+  intros H. unfold u64. rewrite Zplus_mod_idemp_r. apply Z.mod_small. exact H.
+Qed.
+
+Lemma whole_parse_flat shift : forall frags t,
+  frags_contiguous t frags ->
+  Forall (fun f => Forall (fun s => 0 <= s_dur s) (f_samples f)) frags ->
+  0 <= t + shift -> t + shift + sum_durs (frag_samples frags) < two64 ->
+  flat_map (fun f => stamped (u64 (f_tfdt f + u64 shift)) (f_samples f)) frags
+  = stamped (t + shift) (frag_samples frags).
+Proof.
+  induction frags as [|f r IH]; intros t Hc Hd H0 H1; [reflexivity|].
+  cbn [frags_contiguous] in Hc. destruct Hc as [Ht Hc]. subst t. apply Forall_cons_iff in Hd. destruct Hd as [Hd1 Hd2].
+  unfold frag_samples in *. cbn [flat_map] in *. rewrite sum_durs_app in H1.
+  pose proof (sum_durs_nonneg _ Hd1) as Hn.
+  assert (Hr : 0 <= sum_durs (flat_map f_samples r)).
+  { apply sum_durs_nonneg. clear - Hd2. induction Hd2; cbn [flat_map]; [constructor|]. apply Forall_app. split; assumption. }
+  rewrite stamped_app. f_equal.
+  - f_equal. replace shift with (shift - 0) at 1 by lia. rewrite u64_shift by lia. lia.
+  - rewrite (IH (f_tfdt f + sum_durs (f_samples f))); [f_equal; lia|assumption|assumption|lia|lia].
+Qed.
+
+(** Whole-segment mode delivers [stamped newTime] of the VoD samples when the VoD fragments are contiguous. *)
+Lemma whole_parse_stamped newTime f0 frags :
+  frags_contiguous (f_tfdt f0) (f0 :: frags) ->
+  wf_input (frag_samples (f0 :: frags)) newTime ->
+  whole_parse newTime (f0 :: frags) = stamped newTime (frag_samples (f0 :: frags)).
+Proof.
+  intros Hc (Hd & H32 & Ht & H64). unfold whole_parse. cbv zeta.
+  assert (Hd' : Forall (fun f => Forall (fun s => 0 <= s_dur s) (f_samples f)) (f0 :: frags)).
+  { clear - Hd. unfold frag_samples in Hd. induction (f0 :: frags) as [|f r IH]; [constructor|].
+    cbn [flat_map] in Hd. apply Forall_app in Hd. destruct Hd. constructor; auto. }
+  assert (E : u64 (newTime - f_tfdt f0) = u64 (newTime - f_tfdt f0)) by reflexivity.
+  pose proof (whole_parse_flat (newTime - f_tfdt f0) (f0 :: frags) (f_tfdt f0) Hc Hd' ltac:(lia) ltac:(lia)) as W.
+  replace (f_tfdt f0 + (newTime - f_tfdt f0)) with newTime in W by lia.
+  rewrite <- W. apply flat_map_ext. intros f. f_equal.
+Qed.
+
+Lemma same_media newTime f0 frags st newNr newDur C cs :
+  0 < C ->
+  frags_contiguous (f_tfdt f0) (f0 :: frags) ->
+  wf_input (frag_samples (f0 :: frags)) newTime ->
+  Forall (fun s => 0 < s_dur s) (frag_samples (f0 :: frags)) ->
+  chunkSegment (frag_samples (f0 :: frags)) st newTime newNr newDur C = Ok cs ->
+  parse_body cs = whole_parse newTime (f0 :: frags) /\
+  Forall (fun c => c_seq c = newNr) cs /\ styp_first st cs.
+Proof.
+  intros HC Hc Hwf Hpos H.
+  destruct (chunkSegment_partition _ _ _ _ _ _ _ HC Hwf Hpos H) as (P1 & P2 & P3 & P4).
+  split; [|split; [|exact P3]].
+  - rewrite (parse_body_samples cs newTime P2).
+    + rewrite P1. symmetry. apply whole_parse_stamped; assumption.
+    + eapply Forall_impl; [|exact P4]. cbn beta. tauto.
+  - eapply Forall_impl; [|exact P4]. cbn beta. tauto.
+Qed.
+
+(** Fragments of the VoD segment that are not contiguous: whole-segment mode keeps the gap,
+    chunked mode closes it. *)
+Lemma same_media_gap :
+  exists newTime f0 frags cs,
+    wf_input (frag_samples (f0 :: frags)) newTime /\
+    Forall (fun s => 0 < s_dur s) (frag_samples (f0 :: frags)) /\
+    chunkSegment (frag_samples (f0 :: frags)) true newTime 1 20 10 = Ok cs /\
+    parse_body cs <> whole_parse newTime (f0 :: frags).
+Proof.
+  exists 1000, {| f_tfdt := 0; f_samples := [ {| s_dur := 10; s_tag := 1; s_dt := 0 |} ] |},
+         [ {| f_tfdt := 15; f_samples := [ {| s_dur := 10; s_tag := 2; s_dt := 15 |} ] |} ].
+  eexists. split; [|split; [|split; [vm_compute; reflexivity|vm_compute; discriminate]]].
+  - unfold wf_input. repeat split; try (vm_compute; congruence). repeat constructor; cbn; lia.
+  - repeat constructor; cbn; lia.
+Qed.
+
+(** *** chunk duration below zero: every sample is a chunk of its own *)
+Lemma chunk_loop_negative C seq : C < 0 -> forall fs styp nr total dt,
+  1 <= nr -> 0 <= total -> Forall (fun s => 0 <= s_dur s) fs ->
+  let cs := chunk_loop C seq fs [] styp nr 0 total dt in
+  length cs = length fs /\ Forall (fun c => length (c_samples c) = 1%nat) cs.
+Proof.
+  intros HC. induction fs as [|s r IH]; intros styp nr total dt Hnr Htot Hd; cbv zeta.
+  - cbn. split; [reflexivity|constructor].
+  - apply Forall_cons_iff in Hd. destruct Hd as [Hs Hd]. cbn [chunk_loop].
+    destruct (total + s_dur s >=? C * nr) eqn:E; [|nia].
+    destruct (IH false (nr + 1) (total + s_dur s) (u64 (dt + s_dur s)) ltac:(lia) ltac:(lia) Hd) as [L F].
+    cbn [length]. split; [now rewrite L|]. constructor; [reflexivity|exact F].
+Qed.
+
+Lemma chunkSegment_negative fs st newTime newNr newDur C cs :
+  C < 0 -> Forall (fun s => 0 <= s_dur s) fs ->
+  chunkSegment fs st newTime newNr newDur C = Ok cs ->
+  length cs = length fs /\ Forall (fun c => length (c_samples c) = 1%nat) cs.
+Proof.
+  intros HC Hd H. apply chunkSegment_ok in H. destruct H as [_ ->].
+  apply (chunk_loop_negative C newNr HC fs st 1 0 newTime); [lia|lia|assumption].
+Qed.
